@@ -93,9 +93,22 @@ pub fn check(c: &Case) -> Result<(), String> {
         let mut p3 = c.password.0.clone();
         p3.push(0);
         others.push(p3);
-        for o in others {
-            if o != c.password.0 && h.verify(&o).is_ok() {
-                return Err(format!("PwHash::verify accepted a different password ({} vs {})", hx(&o), hx(&c.password)));
+        for o in &others {
+            if *o != c.password.0 && h.verify(o).is_ok() {
+                return Err(format!("PwHash::verify accepted a different password ({} vs {})", hx(o), hx(&c.password)));
+            }
+        }
+        // objects assembled from parts (or deserialised) whose stored hash is shorter than the configured length
+        // must still reject every other password: no prefix / empty-hash acceptance
+        if c.outlen <= 64 {
+            let (hash, salt, cfg) = h.clone().into_parts();
+            for k in [0usize, 1, 2, hash.len() / 2] {
+                let short = PwHash::<Vec<u8>, Vec<u8>>::from_parts(hash[..k].to_vec(), salt.clone(), cfg.clone());
+                for o in &others {
+                    if *o != c.password.0 && short.verify(o).is_ok() {
+                        return Err(format!("PwHash::verify accepted a wrong password against a stored hash truncated to {k} bytes"));
+                    }
+                }
             }
         }
     }
